@@ -97,7 +97,7 @@ def run_unit(unit, progress):
         seqs = set()
         for pi, pol in enumerate(pols):
             how = HOWS[(i + pi) % 4]
-            rt, out, _e, _r = tl.execute(prog, how, pol, cs, MONITORS, rrt_exp=exp_rrt)
+            rt, out, _e, _r = tl.execute(prog, how, pol, cs, MONITORS, rrt_exp=exp_rrt, keep_deps=(i + pi) % 4 == 3)
             res["evaluations"] += 1
             tl.harvest(rt, c)
             fl = [frozenset(ev[2]) for ev in rt.log if ev[0] == "flush_body"]
